@@ -111,13 +111,42 @@ func (a *c19g) loopShape(pk *packages.Package, fd *ast.FuncDecl, rs *ast.RangeSt
 		return lp
 	}
 	g := a.c.P.CFG(info, fd.Body)
+	// values derived from the evaluation result inside the loop body (`next, ok := val.(Row)`)
+	fromVal := map[types.Object]bool{lp.val: true}
+	for changed := true; changed; {
+		changed = false
+		ast.Inspect(rs.Body, func(n ast.Node) bool {
+			as, ok := n.(*ast.AssignStmt)
+			if !ok || as == lp.evalAs {
+				return true
+			}
+			m := false
+			for _, r := range as.Rhs {
+				if c19gMentionsAny(info, r, func(o types.Object) bool { return fromVal[o] }) {
+					m = true
+				}
+			}
+			if m {
+				for _, l := range as.Lhs {
+					if o := c19gObjOf(info, l); o != nil && o != lp.acc && !fromVal[o] {
+						if b, isB := o.Type().Underlying().(*types.Basic); isB && b.Info()&types.IsBoolean != 0 {
+							continue
+						}
+						fromVal[o] = true
+						changed = true
+					}
+				}
+			}
+			return true
+		})
+	}
 	isAccWrite := func(n ast.Node) bool {
 		as, ok := n.(*ast.AssignStmt)
 		if !ok || !dmlAssigns(info, as, lp.acc) {
 			return false
 		}
 		for _, r := range as.Rhs {
-			if dmlMentions(info, r, lp.val, false) {
+			if c19gMentionsAny(info, r, func(o types.Object) bool { return fromVal[o] }) {
 				return true
 			}
 		}
@@ -365,6 +394,7 @@ func (a *c19g) applier(pk *packages.Package, fd *ast.FuncDecl, apps []*c19gApp) 
 	c, info := a.c, pk.TypesInfo
 	name := DeclName(fd)
 	g := c.P.CFG(info, fd.Body)
+	tagless := c19gTaglessCases(fd.Body)
 	var ex, de []*c19gApp
 	for _, ap := range apps {
 		if ap.kind == "explicit" {
@@ -612,30 +642,36 @@ func (a *c19g) applier(pk *packages.Package, fd *ast.FuncDecl, apps []*c19gApp) 
 	}
 	key = name + "/derived-applied-when-changed"
 	var skippedAt ast.Node
-	p := dmlSearch(g, startE, 0, func(n ast.Node, st int) (int, dmlVerdict) {
+	var skipPath []ast.Node
+	skipped := false
+	w := &c19gWalker{info: info, budget: 200000, tagless: tagless}
+	w.atom = func(_ *c19gPath, x ast.Expr) (int, bool) { return atom(x) }
+	w.halt = func(p *c19gPath, n ast.Node) bool {
 		if n == D.node {
-			return st, dmlStop
+			return true
 		}
 		if len(sinkExprs(n)) > 0 {
-			skippedAt = n
-			return st, dmlHit
-		}
-		return st, dmlGo
-	}, func(b *cfg.Block, si int, st int) (int, bool) {
-		if cond, ok := c19gIsBranch(b); ok {
-			v := c19gEval(info, cond, atom)
-			if (v == c19gT && si != 0) || (v == c19gF && si != 1) {
-				return st, false
+			if !skipped {
+				skipped, skippedAt, skipPath = true, n, append([]ast.Node(nil), p.trail...)
 			}
+			return true
 		}
-		return st, true
-	}, func(int) bool { return true })
-	if p != nil {
+		return false
+	}
+	w.end = func(p *c19gPath, how string, r *ast.ReturnStmt) {
+		if how == "end" && !skipped {
+			skipped, skipPath = true, append([]ast.Node(nil), p.trail...)
+		}
+	}
+	w.walkFrom(startE.B, startE.I+1, c19gNewPath())
+	if w.exceeded {
+		c.Undecided("C19-G4", key, D.node.Pos(), "path budget exceeded")
+	} else if skipped {
 		where := "the end of the function"
 		if skippedAt != nil {
 			where = "`" + shortNode(c.P.Fset, skippedAt) + "`"
 		}
-		c.Bad("C19-G4", key, D.node.Pos(), fmt.Sprintf("%s: with derived expressions present and a row changed by the user's assignments, %s is reached without the derived expressions having been applied: generated columns keep the value computed from the old row", name, where), c.P.DescribePath(p)...)
+		c.Bad("C19-G4", key, D.node.Pos(), fmt.Sprintf("%s: with derived expressions present and a row changed by the user's assignments, %s is reached without the derived expressions having been applied: generated columns keep the value computed from the old row", name, where), c.P.DescribePath(skipPath)...)
 	} else {
 		c.Ok("C19-G4", key, D.node.Pos(), "on every non-error path after the explicit half with (has derived ∧ row changed) the derived half is applied")
 	}
